@@ -34,6 +34,7 @@ TOKEN_RE = re.compile(r'''
   | (?P<num>0[xX][0-9a-fA-F]+[uUlL]*|\d+[uUlL]*)
   | (?P<id>[A-Za-z_]\w*)
   | (?P<str>"(?:[^"\\]|\\.)*")
+  | (?P<chr>'(?:[^'\\]|\\.)')
   | (?P<op>\.\.\.|<<=|>>=|->\*|::|->|\+\+|--|<<|>>|<=|>=|==|!=|&&|\|\||\+=|-=|\*=|/=|%=|&=|\|=|\^=|[-+*/%<>=!&|^~?:;,.(){}\[\]])
 ''', re.X)
 
@@ -87,13 +88,22 @@ def tokenize(text):
     return toks
 
 
+_LITERAL = re.compile('R"\\((?:.|\\n)*?\\)"|"(?:[^"\\\\\\n]|\\\\.)*"|\'(?:[^\'\\\\\\n]|\\\\.)\'')
+
+
 def balanced(text, start, open_ch, close_ch):
     """index just after the bracket that closes the one at text[start]"""
     assert text[start] == open_ch
     depth = 0
     i = start
+    lit = _LITERAL
     while i < len(text):
         c = text[i]
+        if c in '"\'' or (c == 'R' and text[i:i + 3] == 'R"('):
+            m = lit.match(text, i)          # brackets inside a string or character literal do not count
+            if m:
+                i = m.end()
+                continue
         if c == open_ch:
             depth += 1
         elif c == close_ch:
@@ -563,6 +573,9 @@ class Parser:
         if k == 'num':
             self.next()
             return ('num', int(re.sub(r'[uUlL]+$', '', v), 0))
+        if k == 'chr':
+            self.next()
+            return ('chr', v)
         if k == 'str':
             self.next()
             return ('str', v)
